@@ -6,7 +6,10 @@ Import ListNotations.
 Open Scope Z_scope.
 
 (* kind: 0 eqint 1 eqstr 2 ordint 3 ordstr 4 cmeq 5 cmord 6 fromeq 7 fromord 8 sgfrom 9 monfrom 10 monfromop
-         11 cmfromeq 12 cmfromord: ContraMap over a From instance whose relation is NOT symmetric (argument order shows) *)
+         11 cmfromeq 12 cmfromord: ContraMap over a From instance whose relation is NOT symmetric (argument order shows)
+         13 fromorddist 14 cmfromorddist: a wrapped comparator that returns a distance (any Ordering, not only -1/0/1)
+         15 monslice: a monoid over lists, concatenation, with the given empty element [e; e+1] truncated to `code` entries;
+            obs = length-prefixed Empty, Combine a b, Combine b a, Combine Empty a *)
 Record case := mk { kind : N; code : Z; a : list Z; b : list Z; e : Z; obs : list Z }.
 
 Definition b2z (x : bool) : Z := if x then 1 else 0.
@@ -17,6 +20,10 @@ Definition proj (c : Z) (x : Z) : Z := match c with 0 => x mod 5 | 1 => - x | _ 
 Definition bop (c : Z) (x y : Z) : Z := match c with 0 => x - y | 1 => 3 * x + y | _ => x * y end.
 
 Definition cmp_spec {T} (lt : T -> T -> bool) (x y : T) : Z := if lt x y then -1 else if lt y x then 1 else 0.
+
+(* the given empty element of kind 15 and the length-prefixed listing of a list *)
+Definition sempty (c : case) : list Z := firstn (Z.to_nat (code c)) [e c; e c + 1].
+Definition lenc (l : list Z) : list Z := Z.of_nat (length l) :: l.
 
 Definition required (c : case) : list Z :=
   let x := hd0 (a c) in let y := hd0 (b c) in
@@ -32,9 +39,12 @@ Definition required (c : case) : list Z :=
   | 8%N => [bop (code c) x y]
   | 11%N => [b2z (Z.eqb (proj (code c) x) (proj (code c) y + code c))]
   | 12%N => [cmp_spec Z.ltb (proj (code c) x) (proj (code c) y + code c)]
+  | 13%N => [x - y + code c]
+  | 14%N => [proj (code c) x - proj (code c) y + code c]
+  | 15%N => let em := sempty c in lenc em ++ lenc (a c ++ b c) ++ lenc (b c ++ a c) ++ lenc (em ++ a c)
   | _ => [e c; bop (code c) x y; bop (code c) y x]
   end.
 
 Definition violations (cs : list case) : list N := idx_where (fun c => negb (lz_eqb (required c) (obs c))) 0%N cs.
 Definition digest (cs : list case) : list (N * N) :=
-  map (fun k => (k, count_where (fun c => N.eqb (kind c) k) cs)) (map N.of_nat (seq 0 13)).
+  map (fun k => (k, count_where (fun c => N.eqb (kind c) k) cs)) (map N.of_nat (seq 0 16)).
